@@ -119,6 +119,7 @@ pub struct Run {
 	pub hist: u64,
 	pub inter: u64,
 	pub trace: Vec<Action>,
+	pub effective: u64,
 	pub step: u64,
 	pub state_fps: BTreeSet<u64>,
 	pub sample: Vec<String>,
@@ -209,6 +210,7 @@ impl Run {
 			hist: fnv(b"persistsim"),
 			inter: fnv(b"inter"),
 			trace: Vec::new(),
+			effective: 0,
 			step: 0,
 			state_fps: BTreeSet::new(),
 			sample: Vec::new(),
@@ -366,6 +368,9 @@ impl Run {
 
 	pub fn apply(&mut self, a: &Action) -> bool {
 		self.step += 1;
+		// every attempted action is part of the trace: a world action that "did nothing" still moved
+		// the world's clock and may have processed queued work inside the library
+		self.trace.push(a.clone());
 		let did = match a {
 			Action::W(wa) => {
 				if self.wd.dead {
@@ -424,7 +429,7 @@ impl Run {
 			if self.sample.len() < 30 {
 				self.sample.push(format!("{:?}", a));
 			}
-			self.trace.push(a.clone());
+			self.effective += 1;
 			self.fingerprint();
 		}
 		did
@@ -638,11 +643,11 @@ fn next_persist_action(run: &Run, rng: &mut Rng) -> Option<Action> {
 fn drive(run: &mut Run, rng: &mut Rng) {
 	let mut sched = rng.fork("schedule");
 	let mut idle = 0;
-	while (run.trace.len() as u64) < run.cfg.steps && idle < 60 {
+	while (run.effective) < run.cfg.steps && idle < 60 {
 		if run.mirrors.iter().all(|m| m.dead) {
 			break;
 		}
-		let late = run.trace.len() as u64 >= run.cfg.close_after;
+		let late = run.effective >= run.cfg.close_after;
 		if late {
 			let (cc, fc) = (run.cfg.w_close_coop, run.cfg.w_force_close);
 			run.wd.cfg.weights.insert("CloseCoop".to_string(), cc);
